@@ -1,0 +1,56 @@
+// SPDX-FileCopyrightText: 2026 The Pion community <https://pion.ly>
+// SPDX-License-Identifier: MIT
+
+//go:build verif && !js
+
+package webrtc
+
+// VerifNewEnum calls the string constructor (newX / NewX) of the named enum type on raw and
+// returns the resulting value as an int, whether the constructor reported an error, and whether the
+// type has such a constructor at all (verification hook, C38).
+func VerifNewEnum(typ, raw string) (val int, failed bool, known bool) { //nolint:cyclop
+	switch typ {
+	case "SDPType":
+		return int(NewSDPType(raw)), false, true
+	case "SignalingState":
+		return int(newSignalingState(raw)), false, true
+	case "ICEConnectionState":
+		return int(NewICEConnectionState(raw)), false, true
+	case "ICEGatheringState":
+		return int(NewICEGatheringState(raw)), false, true
+	case "ICETransportState":
+		return int(newICETransportState(raw)), false, true
+	case "DTLSTransportState":
+		return int(newDTLSTransportState(raw)), false, true
+	case "SCTPTransportState":
+		return int(newSCTPTransportState(raw)), false, true
+	case "DataChannelState":
+		return int(newDataChannelState(raw)), false, true
+	case "PeerConnectionState":
+		return int(newPeerConnectionState(raw)), false, true
+	case "BundlePolicy":
+		return int(newBundlePolicy(raw)), false, true
+	case "RTCPMuxPolicy":
+		return int(newRTCPMuxPolicy(raw)), false, true
+	case "ICETransportPolicy":
+		return int(NewICETransportPolicy(raw)), false, true
+	case "SDPSemantics":
+		return int(newSDPSemantics(raw)), false, true
+	case "ICECredentialType":
+		v, err := newICECredentialType(raw)
+
+		return int(v), err != nil, true
+	case "ICERole":
+		return int(newICERole(raw)), false, true
+	case "ICECandidateType":
+		v, err := NewICECandidateType(raw)
+
+		return int(v), err != nil, true
+	case "ICEProtocol":
+		v, err := NewICEProtocol(raw)
+
+		return int(v), err != nil, true
+	default:
+		return 0, false, false
+	}
+}
